@@ -1084,7 +1084,9 @@ def inv_limits(e0, p, xs0, interp):
         lo, hi = 0.0, (max(max(xs0) * 1.25, 2.0) if interp else INF)
     else:
         Lc = p[f"{e0[2]}/Lc"]
-        lo, hi = 0.0, max(min(Lc * 0.995, max(xs0) * 1.05), 1.0 + 1e-9)
+        # the inextensible Marko-Siggia force is increasing only below the contour length; for Lc < ~1 um
+        # these limits exclude the initial guess 1.0 (finding F9)
+        lo, hi = 0.0, min(Lc * 0.995, max(max(xs0) * 1.05, 1.0 + 1e-9))
         if kind in ("ewlc_odijk_force", "ewlc_marko_siggia_force", "efjc_force", "twlc_force"):
             hi = max(max(xs0) * 1.05, 1.0 + 1e-9)
     return lo, hi
@@ -1148,8 +1150,6 @@ def cases(tier, rng):
         xs0 = base_inputs(sub, e0, p, sub.randint(1, 5))
         interp = sub.chance(0.5)
         lo, hi = inv_limits(e0, p, xs0, interp)
-        if not (lo <= 1.0 <= (float(hi) if hi != INF else math.inf)):
-            continue
         inner = e0
         ys = plain_eval_base(e0, p, xs0)
         if sub.chance(0.35):
